@@ -1,7 +1,7 @@
 (* C09 — OVF files round-trip fields and follow the OVF 1.0/2.0 format.
    ONLY statements, each closed by [exact] of a lemma proved in proofs/, followed by
    Print Assumptions. *)
-From DF Require Import Prelude Constants_gen Region Mesh Ovf C09_layout C09_codec C09_faults C09_mesh C09_roundtrip.
+From DF Require Import Prelude Constants_gen Region Mesh Ovf C09_layout C09_codec C09_faults C09_mesh C09_roundtrip C09_sidecar.
 Open Scope Q_scope.
 
 (* a binary file whose check value is not the one of its representation is rejected *)
@@ -267,3 +267,30 @@ Example C09_faults_trailer_nonvacuous : exists fl sc f',
   encode 0 0 idQ (wit_field ["a"; "b"]%string) RBin8 false true = OK (fl, sc) /\
   decode 0 idQ fl sc = OK f' /\ is_binary (f_rep fl) = true /\ announced fl = 4%nat.
 Proof. exact wit_file_decodes. Qed.
+
+(* ================================================================ the side-car on disk *)
+(* saving over an existing side-car leaves the saved field's own table (possibly empty), never the
+   old one; without save_subregions the disk is untouched; on a fresh name the writer's side-car is
+   this contract with nothing before *)
+Theorem C09_sidecar_overwritten : forall old sc : sidecar, sidecar_after (Some old) true sc = Some sc.
+Proof. exact sidecar_overwritten. Qed.
+Print Assumptions C09_sidecar_overwritten.
+
+Theorem C09_sidecar_not_saved : forall (before : option sidecar) (sc : sidecar),
+  sidecar_after before false sc = before.
+Proof. exact sidecar_not_saved. Qed.
+Print Assumptions C09_sidecar_not_saved.
+
+Theorem C09_sidecar_fresh : forall (V : Type) (d zero : V) (wr : repr -> V -> V)
+    (f : ofield V) (rp : repr) (extend ss : bool) (fl : ovf_file V) (sc : option sidecar),
+  encode d zero wr f rp extend ss = OK (fl, sc) ->
+  sc = sidecar_after None ss (sidecar_of (of_mesh f)).
+Proof. exact encode_sidecar_fresh. Qed.
+Print Assumptions C09_sidecar_fresh.
+
+(* the empty table written over an old side-car reads exactly like no side-car: with
+   C09_roundtrip, a field without subregions saved over an older save comes back without any *)
+Theorem C09_empty_sidecar_reads_none : forall (V : Type) (d : V) (rd : repr -> V -> V) (fl : ovf_file V),
+  decode d rd fl (Some []) = decode d rd fl None.
+Proof. exact empty_sidecar_reads_none. Qed.
+Print Assumptions C09_empty_sidecar_reads_none.
